@@ -1,9 +1,329 @@
 (* Property C11 -- MEME-style score distribution agrees with the exact tail within
-   its resolution.  Only the property theorems, statement pins and non-vacuity examples. *)
+   its resolution.  Only the property theorems, statement pins and non-vacuity examples.
+
+   Model: DistModel.build / d_pvalue / d_score (From<ScoringMatrix> for ScoreDistribution,
+   pvalue, score of lightmotif/src/pwm/dist.rs) over a numeric carrier.  The theorems are
+   about the exact-rational instance [QOps] (probabilities are rationals; every panic site
+   of the code is a [Panic] result, so "[... = Ok d]" means: the code did not panic);
+   the [_refuted] lemmas are about the bit-exact binary64 instance [F64Ops] on inputs
+   given as f32 bit patterns, and are replayed on the implementation by
+   corpus/C11/witnesses.txt.
+
+   Specification side (DistInst): [tail_exact m bg t] = P(S >= t) and
+   [tailD data bg k] = P(D >= k), [pmfD] = P(D = k), for independent symbols drawn with
+   the weights [bg]; S = sum of the selected cells of the scoring matrix (a -inf cell is
+   never reached), D = sum of the selected discretised cells (i32::MIN = skipped). *)
 From Coq Require Import List ZArith QArith Qround Qabs Bool Arith Lia.
 From LMBase Require Import Res ListX IEEE.
-From LMDist Require Import DistModel DistInst DistProofs.
+From LMDist Require Import DistModel DistInst DistProofs DistConv DistTail DistBuild DistThms
+  DistDyadic DistCheckProofs DistStretch DistIEEE.
 Import ListNotations.
+Local Open Scope Q_scope.
 
-Theorem C11_placeholder : True.
-Proof. exact I. Qed.
+(* ====================================================================== *)
+(* First pass                                                             *)
+(* ====================================================================== *)
+
+(* The tabulated survival function has M*1000+1 entries, is non-increasing and stays in
+   [0,1], for every matrix and every background of non-negative weights of total mass
+   at most 1 (without the mass bound the last entry is not clipped:
+   C11_last_entry_unclipped_refuted). *)
+Theorem C11_sf_monotone_range : forall m bg d,
+  bg_nonneg bg -> Qsum bg <= 1 -> build QOps m bg = Ok d ->
+  length (d_sf d) = (length m * cdf_range + 1)%nat /\ noninc Qle (d_sf d) /\ Forall Qin01 (d_sf d).
+Proof. exact sf_monotone_range_Q. Qed.
+
+(* The same in IEEE binary64 arithmetic itself (Flocq): for every pdf of finite non-negative
+   doubles whose last entry is at most 1 the table computed by the survival loop with
+   round-to-nearest additions and min(.,1.0) is non-increasing, inside [0,1] and finite --
+   because rounding is monotone and keeps representable numbers: b <= min(fl(a+b), 1). *)
+Theorem C11_sf_monotone_range_ieee : forall pdf sf mn mx,
+  Forall (fun x => F64.is_finite x = true /\ F64.le F64.zero x = true) pdf ->
+  F64.le (last pdf F64.zero) f64_one = true ->
+  survival F64Ops pdf = Ok (sf, mn, mx) ->
+  length sf = length pdf /\ noninc f64_leP sf /\ Forall (in01 F64Ops f64_leP) sf /\
+  Forall (fun x => F64.is_finite x = true) sf.
+Proof. exact sf_monotone_range_F64. Qed.
+
+(* |D(w) - (S(w) - M*offset)*scale| <= M/2 for every word w through finite cells, and D(w)
+   is inside the table. *)
+Theorem C11_discretisation_error : forall m offset scale w s,
+  stage_a QOps m = Ok (offset, scale) -> word_S m w = Some s ->
+  exists k, word_D (map (map (disc_cell QOps offset scale)) m) w = Some k /\
+    (0 <= k <= 1000 * Z.of_nat (length m))%Z /\
+    Qabs (inject_Z k - (s - inject_Z (Z.of_nat (length m)) * offset) * scale)
+      <= inject_Z (Z.of_nat (length m)) / 2.
+Proof. exact discretisation_error_Q. Qed.
+
+(* p-values are non-increasing in the score (all scores, including below the minimum and
+   above the maximum). *)
+Theorem C11_pvalue_monotone : forall m bg d s1 s2 p1 p2,
+  bg_nonneg bg -> Qsum bg <= 1 -> build QOps m bg = Ok d -> s1 <= s2 ->
+  d_pvalue QOps d s1 = Ok p1 -> d_pvalue QOps d s2 = Ok p2 -> p2 <= p1.
+Proof. exact pvalue_monotone_Q. Qed.
+
+(* ====================================================================== *)
+(* Stretch                                                                *)
+(* ====================================================================== *)
+
+(* pdf[k] = P(D = k): the convolution loop (two buffers, swap, partial fill, skipped
+   symbols, zero entries skipped) computes the exact distribution of the discretised
+   score, for any background. *)
+Theorem C11_pdf_is_distribution : forall m bg d,
+  build QOps m bg = Ok d ->
+  exists pdf, pdf_of QOps bg (d_data d) = Ok pdf /\
+    length pdf = (length m * cdf_range + 1)%nat /\
+    (forall j, (j < length pdf)%nat -> nth j pdf 0 == pmfD (d_data d) bg (Z.of_nat j)) /\
+    (forall k, (k < 0 \/ Z.of_nat (length m * cdf_range) < k)%Z -> pmfD (d_data d) bg k == 0).
+Proof. exact pdf_is_distribution_Q. Qed.
+
+(* the table is the exact tail of the discretised score: sf[j] = P(D >= j) *)
+Theorem C11_sf_is_tail : forall m bg d,
+  bg_nonneg bg -> Qsum bg <= 1 -> build QOps m bg = Ok d ->
+  forall j, (j < length (d_sf d))%nat -> nth j (d_sf d) 0 == tailD (d_data d) bg (Z.of_nat j).
+Proof. intros m bg d Hbg Hm H. exact (proj1 (proj2 (build_Q_table m bg d Hbg Hm H))). Qed.
+
+(* P(S >= s + d) <= pvalue(s) <= P(S >= s - d), d = (M/2 + 1) discretisation steps, when
+   one step is finite (scale > 0, i.e. the finite cells span at most 1000), the weights of
+   the non-skipped symbols of every row sum to 1, and offset and table length fit i32. *)
+Theorem C11_pvalue_brackets_exact : forall m bg d offset scale s p,
+  bg_nonneg bg -> Qsum bg <= 1 -> Forall (fun row => row_mass bg row == 1) m ->
+  build QOps m bg = Ok d -> stage_a QOps m = Ok (offset, scale) -> 0 < scale ->
+  in_i32 (Qfloor offset) = true -> (Z.of_nat (length m) * 1000 < i32_max)%Z ->
+  d_pvalue QOps d s = Ok p ->
+  let dd := (inject_Z (Z.of_nat (length m)) / 2 + 1) / scale in
+  tail_exact m bg (s + dd) <= p /\ p <= tail_exact m bg (s - dd).
+Proof. exact pvalue_brackets_exact_Q. Qed.
+
+(* Converting a p-value in (0,1) to a score and back never yields a larger p-value (exact
+   arithmetic: unscale is exact; for the f32 unscale of the code see
+   C11_unscale_inexact_refuted; without total mass 1: C11_wildcard_mass_refuted; with
+   scale = 0: C11_scale_zero_refuted). *)
+Theorem C11_score_pvalue_roundtrip : forall m bg d offset scale p s q,
+  bg_nonneg bg -> Qsum bg <= 1 -> Forall (fun row => row_mass bg row == 1) m ->
+  build QOps m bg = Ok d -> stage_a QOps m = Ok (offset, scale) -> 0 < scale ->
+  (Z.of_nat (length m) * 1000 < i32_max)%Z ->
+  0 < p -> p < 1 ->
+  d_score QOps d p = Ok s -> d_pvalue QOps d s = Ok q -> q <= p.
+Proof. exact score_pvalue_roundtrip_Q. Qed.
+
+(* ====================================================================== *)
+(* The checker used on the implementation's observations is sound, and the *)
+(* exact tails it computes are the specification's.                        *)
+(* ====================================================================== *)
+
+Theorem check_C11_sound : forall m bg sf pv br rt,
+  check_C11 m bg sf pv br rt = true -> Holds_C11 m bg sf pv br rt.
+Proof. exact check_C11_sound_lemma. Qed.
+
+Theorem C11_tail_dyadic_correct : forall k j, (0 <= k)%Z -> (0 <= j)%Z ->
+  forall (cz : list (list (option Z))) (bgz : list Z) t,
+  tail_exact (map (map (qcell k)) cz) (map (qweight j) bgz) t ==
+  tail_dy (word_tableZ cz bgz) k j (Z.of_nat (length cz)) t.
+Proof. exact tail_dyadic_correct. Qed.
+
+(* the dyadic matrix the checker enumerates has exactly the values of the floats *)
+Theorem C11_dyadic_values : forall (m : list (list F64.t)) (bg : list F64.t),
+  c11_in_scope m bg = true ->
+  Forall2 (Forall2 cell_equiv) (c11_qm m) (map (map f64_cell) m) /\
+  Forall2 Qeq (c11_qbg bg) (map f64_to_Q bg).
+Proof. exact dyadic_values. Qed.
+
+(* hence the tails the checker brackets p-values with are those of the float matrix itself *)
+Theorem C11_checker_tails : forall (m : list (list F64.t)) (bg : list F64.t),
+  c11_in_scope m bg = true ->
+  forall t, tail_exact (c11_qm m) (c11_qbg bg) t == tail_exact (map (map f64_cell) m) (map f64_to_Q bg) t.
+Proof. exact c11_tail_values. Qed.
+
+(* ====================================================================== *)
+(* Known findings: the full-strength statements are false of the bit-exact *)
+(* model on these inputs (f32 bit patterns; 4286578688 = -inf).            *)
+(* ====================================================================== *)
+
+Ltac conj_all := match goal with |- _ /\ _ => split; [|conj_all] | _ => idtac end.
+
+Definition ninf32 : Z := 4286578688%Z.
+Definition bg_uniform32 : list Z := [1048576000; 1048576000; 1048576000; 1048576000; 0]%Z.
+
+(* F12: a background with wildcard mass and a -inf wildcard column: pvalue below the
+   minimum is the literal 1.0 although the exact tail P(S >= s - d) is 7/8. *)
+Lemma C11_wildcard_mass_refuted :
+  exists (m : list (list Z)) (bg : list Z) (s : Z),
+    c11_in_scope (map (map f32_val) m) (map f32_val bg) = true /\
+    bg_new_ok (map F32.of_bits bg) = true /\
+    match f64_build (map (map f32_cell) m) (map f32_val bg) with
+    | Ok d => match f64_pvalue d (f32_val s) with Ok p => F64.eq p f64_one | _ => false end
+    | _ => false
+    end = true /\
+    q_stage_a (c11_qm (map (map f32_val) m)) = Ok (0, 333) /\
+    tail_exact (c11_qm (map (map f32_val) m)) (c11_qbg (map f32_val bg))
+       (f64_to_Q (f32_val s) - (inject_Z 1 / 2 + 1) / 333) == 7 # 8.
+Proof.
+  exists [[0; 1065353216; 1073741824; 1077936128; ninf32]]%Z,
+         [1048576000; 1048576000; 1048576000; 1040187392; 1040187392]%Z, 3231711232%Z.
+  conj_all; vm_compute; reflexivity.
+Qed.
+
+(* finite cells spanning more than 1000: scale = 0, score(0.5) is not a number the table
+   can answer and pvalue(score(0.5)) = 1.0 > 0.5 *)
+Lemma C11_scale_zero_refuted :
+  exists (m : list (list Z)) (bg : list Z) (p : Z),
+    c11_in_scope (map (map f32_val) m) (map f32_val bg) = true /\
+    bg_new_ok (map F32.of_bits bg) = true /\
+    in_open01 F64Ops (F64.of_bits p) = true /\
+    match f64_build (map (map f32_cell) m) (map f32_val bg) with
+    | Ok d => match f64_roundtrip d (F64.of_bits p) with Ok r => F64.lt (F64.of_bits p) r | _ => false end
+    | _ => false
+    end = true.
+Proof.
+  exists [[3292233728; 0; 1092616192; 1144750080; ninf32]]%Z, bg_uniform32, 4602678819172646912%Z.
+  conj_all; vm_compute; reflexivity.
+Qed.
+
+(* cells in [4096, 4096.001], M = 2: one step (0.001) is below the f32 spacing at 8192, so
+   scale(unscale(i)) <> i and pvalue(score(0.5)) = 0.5625 > 0.5 *)
+Lemma C11_unscale_inexact_refuted :
+  exists (m : list (list Z)) (bg : list Z) (p : Z),
+    c11_in_scope (map (map f32_val) m) (map f32_val bg) = true /\
+    bg_new_ok (map F32.of_bits bg) = true /\
+    in_open01 F64Ops (F64.of_bits p) = true /\
+    match f64_build (map (map f32_cell) m) (map f32_val bg) with
+    | Ok d => match f64_roundtrip d (F64.of_bits p) with Ok r => F64.lt (F64.of_bits p) r | _ => false end
+    | _ => false
+    end = true.
+Proof.
+  exists [[1166016512; 1166016512; 1166016513; 1166016514; ninf32];
+          [1166016512; 1166016513; 1166016513; 1166016514; ninf32]]%Z, bg_uniform32, 4602678819172646912%Z.
+  conj_all; vm_compute; reflexivity.
+Qed.
+
+(* cells near 3e9, M = 2: `w * self.offset` overflows i32 (panic site 5) in pvalue *)
+Lemma C11_offset_i32_refuted :
+  exists (m : list (list Z)) (bg : list Z) (s : Z),
+    c11_in_scope (map (map f32_val) m) (map f32_val bg) = true /\
+    bg_new_ok (map F32.of_bits bg) = true /\
+    match f64_build (map (map f32_cell) m) (map f32_val bg) with
+    | Ok d => match f64_pvalue d (f32_val s) with Panic 5 => true | _ => false end
+    | _ => false
+    end = true.
+Proof.
+  exists [[1328730206; 1328730208; 1328730210; 1328730207; ninf32];
+          [1328730206; 1328730208; 1328730210; 1328730207; ninf32]]%Z, bg_uniform32, 1337118814%Z.
+  conj_all; vm_compute; reflexivity.
+Qed.
+
+(* constant matrix, background 0.33333334 x 3 (accepted by Background::new: the f32 sum is
+   1.0, the real sum is above 1): the last table entry is not clipped and exceeds 1 *)
+Lemma C11_last_entry_unclipped_refuted :
+  exists (m : list (list Z)) (bg : list Z),
+    c11_in_scope (map (map f32_val) m) (map f32_val bg) = true /\
+    bg_new_ok (map F32.of_bits bg) = true /\
+    match f64_build (map (map f32_cell) m) (map f32_val bg) with
+    | Ok d => F64.lt f64_one (last (d_sf d) F64.zero)
+    | _ => false
+    end = true.
+Proof.
+  exists [[0; 0; 0; 0; ninf32]; [0; 0; 0; 0; ninf32]]%Z, [1051372203; 1051372203; 1051372203; 0; 0]%Z.
+  conj_all; vm_compute; reflexivity.
+Qed.
+
+(* ====================================================================== *)
+(* Statement pins                                                          *)
+(* ====================================================================== *)
+
+Check (eq_refl : cdf_range = 1000%nat).
+
+Check C11_sf_monotone_range : forall m bg d,
+  bg_nonneg bg -> Qsum bg <= 1 -> build QOps m bg = Ok d ->
+  length (d_sf d) = (length m * cdf_range + 1)%nat /\ noninc Qle (d_sf d) /\ Forall Qin01 (d_sf d).
+
+Check C11_pvalue_monotone : forall m bg d s1 s2 p1 p2,
+  bg_nonneg bg -> Qsum bg <= 1 -> build QOps m bg = Ok d -> s1 <= s2 ->
+  d_pvalue QOps d s1 = Ok p1 -> d_pvalue QOps d s2 = Ok p2 -> p2 <= p1.
+
+Check C11_pvalue_brackets_exact : forall m bg d offset scale s p,
+  bg_nonneg bg -> Qsum bg <= 1 -> Forall (fun row => row_mass bg row == 1) m ->
+  build QOps m bg = Ok d -> stage_a QOps m = Ok (offset, scale) -> 0 < scale ->
+  in_i32 (Qfloor offset) = true -> (Z.of_nat (length m) * 1000 < i32_max)%Z ->
+  d_pvalue QOps d s = Ok p ->
+  let dd := (inject_Z (Z.of_nat (length m)) / 2 + 1) / scale in
+  tail_exact m bg (s + dd) <= p /\ p <= tail_exact m bg (s - dd).
+
+Check C11_score_pvalue_roundtrip : forall m bg d offset scale p s q,
+  bg_nonneg bg -> Qsum bg <= 1 -> Forall (fun row => row_mass bg row == 1) m ->
+  build QOps m bg = Ok d -> stage_a QOps m = Ok (offset, scale) -> 0 < scale ->
+  (Z.of_nat (length m) * 1000 < i32_max)%Z ->
+  0 < p -> p < 1 ->
+  d_score QOps d p = Ok s -> d_pvalue QOps d s = Ok q -> q <= p.
+
+Check check_C11_sound : forall m bg sf pv br rt,
+  check_C11 m bg sf pv br rt = true -> Holds_C11 m bg sf pv br rt.
+
+(* ====================================================================== *)
+(* Non-vacuity: the hypotheses are satisfiable and the conclusions bite     *)
+(* ====================================================================== *)
+
+Definition ex_m : list (list (cell Q)) := [[CFin 0; CFin 1; CFin 2; CFin 3; CNInf]].
+Definition ex_bg : list Q := [1 # 4; 1 # 4; 1 # 4; 1 # 4; 0].
+
+Example ex_hyps : bg_nonneg ex_bg /\ Qsum ex_bg <= 1 /\ Forall (fun row => row_mass ex_bg row == 1) ex_m.
+Proof.
+  split; [unfold bg_nonneg, ex_bg; repeat (apply Forall_cons; [vm_compute; discriminate|]); apply Forall_nil|].
+  split; [vm_compute; discriminate|].
+  apply Forall_cons; [vm_compute; reflexivity|apply Forall_nil].
+Qed.
+
+Example ex_build :
+  match build QOps ex_m ex_bg with
+  | Ok d => d_min d = 0%Z /\ d_max d = 999%Z /\ length (d_sf d) = 1001%nat /\
+            nth 333 (d_sf d) 0 == 3 # 4 /\ nth 334 (d_sf d) 0 == 1 # 2 /\ d_scale_f d == 333
+  | _ => False
+  end.
+Proof. vm_compute. conj_all; reflexivity. Qed.
+
+Example ex_stage_a : stage_a QOps ex_m = Ok (0, 333) /\ in_i32 (Qfloor 0) = true.
+Proof. split; vm_compute; reflexivity. Qed.
+
+(* pvalue(1) = P(D >= 333) = 3/4 = P(S >= 1 - d), above P(S >= 1 + d) = 1/2 *)
+Example ex_pvalue :
+  match build QOps ex_m ex_bg with
+  | Ok d => match d_pvalue QOps d 1 with Ok p => p == 3 # 4 | _ => False end
+  | _ => False
+  end /\ tail_exact ex_m ex_bg (1 - (inject_Z 1 / 2 + 1) / 333) == 3 # 4
+      /\ tail_exact ex_m ex_bg (1 + (inject_Z 1 / 2 + 1) / 333) == 1 # 2.
+Proof. conj_all; vm_compute; reflexivity. Qed.
+
+(* score(1/3) followed by pvalue gives 1/4 <= 1/3 *)
+Example ex_roundtrip :
+  match build QOps ex_m ex_bg with
+  | Ok d => match d_score QOps d (1 # 3) with
+            | Ok s => match d_pvalue QOps d s with Ok q => q == 1 # 4 | _ => False end
+            | _ => False end
+  | _ => False
+  end.
+Proof. vm_compute. reflexivity. Qed.
+
+Example ex_word : word_S ex_m [2%nat] = Some (2 + 0) /\
+  word_D (map (map (disc_cell QOps 0 333)) ex_m) [2%nat] = Some 666%Z.
+Proof. split; vm_compute; reflexivity. Qed.
+
+(* the checker accepts the exact answers on this matrix and rejects a p-value above the
+   upper bracket (1.0 for a score whose exact tail is 3/4) *)
+Example ex_checker :
+  let m := [[f32_val 0; f32_val 1065353216; f32_val 1073741824; f32_val 1077936128; f32_val ninf32]] in
+  let bg := map f32_val bg_uniform32 in
+  c11_in_scope m bg = true /\
+  check_C11_fails m bg [] [] [(f32_val 1069547520, F64.of_bits 4602678819172646912)] [] = [] /\
+  check_C11_fails m bg [] [] [(f32_val 1069547520, F64.of_bits 4607182418800017408)] [] = [(4, 0)%nat].
+Proof. cbv zeta. conj_all; vm_compute; reflexivity. Qed.
+
+(* the hypotheses of the IEEE version hold of a concrete pdf: 1/4 four times *)
+Example ex_ieee_hyps :
+  let q := F64.of_bits 4598175219545276416 in
+  forallb (fun x => F64.is_finite x && F64.le F64.zero x) [q; q; q; q] = true /\
+  F64.le (last [q; q; q; q] F64.zero) f64_one = true /\
+  match survival F64Ops [q; q; q; q] with
+  | Ok (sf, mn, mx) => map F64.to_bits sf = [4607182418800017408; 4604930618986332160; 4602678819172646912; 4598175219545276416]%Z
+  | _ => False
+  end.
+Proof. cbv zeta. conj_all; vm_compute; reflexivity. Qed.
